@@ -121,6 +121,8 @@ func (fr *Frame) execLookup(st *State, x *ssa.Lookup) {
 	switch u := x.X.Type().Underlying().(type) {
 	case *types.Map:
 		m := fr.val(st, x.X)
+		// "callsite mapread_<map>:" hooks: arg0 is the key looked up
+		fr.callHooks(st, "mapread_"+fr.describe(x.X), []Val{fr.val(st, x.Index)}, x.Pos())
 		k := fr.mapKey(st, u, fr.val(st, x.Index))
 		v := fr.mapGet(st, m.Term(), u, x.X.Type(), k)
 		fr.assumeWF(st, v)
@@ -147,6 +149,8 @@ func (fr *Frame) execMapUpdate(st *State, x *ssa.MapUpdate) {
 	nn := Not(Eq(m.Term(), Nil))
 	fr.oblige(st, "nil-map-write", fr.describe(x.Map), nn, nil, x.Pos())
 	fr.assume(st, nn)
+	// "callsite mapwrite_<map>:" hooks: arg0 is the key, arg1 the value stored
+	fr.callHooks(st, "mapwrite_"+fr.describe(x.Map), []Val{fr.val(st, x.Key), fr.val(st, x.Value)}, x.Pos())
 	k := fr.mapKey(st, mt, fr.val(st, x.Key))
 	fr.mapSet(st, m.Term(), mt, x.Map.Type(), k, fr.val(st, x.Value))
 }
